@@ -920,6 +920,52 @@ async fn s_list_order_threads(h: &mut Host) -> Result<(), Fail> {
     Ok(())
 }
 
+
+/// C01 / C10 / C11: DeleteSubscription racing a CreateSubscription of the same name (retried while it answers
+/// ALREADY_EXISTS). Once both have returned OK, the subscription exists, is listed by its topic and receives messages
+async fn s_recreate_race(h: &mut Host) -> Result<(), Fail> {
+    let (t, s) = ("projects/p/topics/rr", "projects/p/subscriptions/rr");
+    h.topic(t).await.map_err(c10("CreateTopic of an absent, well-formed name"))?;
+    h.sub(s, t, 0, None).await.map_err(c10("CreateSubscription of an absent name on an existing topic of the same project"))?;
+    for round in 0..24 {
+        let mut d = h.subscriber.clone();
+        let del = async move { d.delete_subscription(DeleteSubscriptionRequest { subscription: s.to_string() }).await.map(|_| ()) };
+        let mut c = h.subscriber.clone();
+        let cre = async move {
+            for _ in 0..(round % 8) { tokio::task::yield_now().await; }
+            for _ in 0..5000 {
+                let req = Subscription {
+                    name: s.to_string(), topic: t.to_string(), push_config: None,
+                    bigquery_config: None, ack_deadline_seconds: 0, retain_acked_messages: false, message_retention_duration: None,
+                    labels: Default::default(), enable_message_ordering: false, expiration_policy: None, filter: String::new(), dead_letter_policy: None,
+                    retry_policy: None, detached: false, enable_exactly_once_delivery: false, topic_message_retention_duration: None, state: 0,
+                };
+                match c.create_subscription(req).await {
+                    Ok(_) => return Ok(true),
+                    Err(e) if e.code() == Code::AlreadyExists => continue,
+                    Err(e) => return Err(e),
+                }
+            }
+            Ok(false)
+        };
+        let (rd, rc) = tokio::join!(del, cre);
+        if let Err(e) = rd { return Err(f("C11+C10", format!("round {}: DeleteSubscription failed: {:?}", round, e.code()))); }
+        let created = match rc { Ok(b) => b, Err(e) => return Err(f("C10", format!("round {}: CreateSubscription racing a DeleteSubscription of the same name: {:?}", round, e.code()))) };
+        if !created { return Err(f("C10", format!("round {}: after DeleteSubscription returned, CreateSubscription of that name still answers ALREADY_EXISTS", round))); }
+        // both returned OK: the new subscription exists, is attached, and receives what is published now
+        expect_code(h.sub(s, t, 0, None).await, Code::AlreadyExists, "C10+C01+C11", "DeleteSubscription and a racing CreateSubscription of the same name both returned OK, so the subscription exists and is attached; a further CreateSubscription of that name")?;
+        let l = h.publisher.list_topic_subscriptions(ListTopicSubscriptionsRequest { topic: t.into(), page_size: 10, page_token: String::new() }).await.map_err(|e| f("C11", format!("ListTopicSubscriptions: {:?}", e.code())))?.into_inner();
+        if l.subscriptions != vec![s.to_string()] { return Err(f("C11+C01", format!("round {}: delete and re-create of one subscription name both returned OK; the topic now lists {:?}", round, l.subscriptions))); }
+        h.publish(t, vec![(vec![round as u8], HashMap::new())]).await.map_err(|e| f("C01+C11", format!("round {}: Publish failed: {:?}", round, e.code())))?;
+        match h.pull(s, 10, true).await {
+            Ok(m) if m.len() == 1 && m[0].message.as_ref().map(|x| x.data == vec![round as u8]).unwrap_or(false) => { h.ack(s, vec![m[0].ack_id.clone()]).await.map_err(setup("ack"))?; }
+            Ok(m) => return Err(f("C01", format!("round {}: the re-created subscription received {} of 1 published messages", round, m.len()))),
+            Err(e) => return Err(f("C10+C01", format!("round {}: Pull on the re-created subscription: {:?}", round, e.code()))),
+        }
+    }
+    Ok(())
+}
+
 /// C15 (streaming limit) and C17 (inconsistent control messages) on an open StreamingPull
 async fn s_stream_limits(h: &mut Host) -> Result<(), Fail> {
     let (t, s) = ("projects/p/topics/sl", "projects/p/subscriptions/sl");
@@ -991,6 +1037,7 @@ pub fn run_all() -> i32 {
         ("large_requests", |h| Box::pin(s_large_requests(h))),
         ("stream_mixed_modack", |h| Box::pin(s_stream_mixed_modack(h))),
         ("push_lifecycle", |h| Box::pin(s_push_lifecycle(h))),
+        ("recreate_race", |h| Box::pin(s_recreate_race(h))),
     ];
     let n = scenarios.len() + multi.len();
     // every scenario runs; each failing one prints its own WITNESS line (the driver picks the one for the property at hand)
